@@ -7,6 +7,7 @@ import (
 	"io"
 	"strings"
 
+	"github.com/freeconf/yang/fc"
 	"github.com/freeconf/yang/node"
 	"github.com/freeconf/yang/val"
 
@@ -57,7 +58,38 @@ func (self *JSONRdr) decode() (map[string]interface{}, error) {
 }
 
 func leafOrLeafListJsonReader(m meta.Leafable, data interface{}) (v val.Value, err error) {
+	if err = jsonLeafShape(m, data); err != nil {
+		return nil, err
+	}
 	return node.NewValue(m.Type(), data)
+}
+
+// the value of a leaf is a scalar, the value of a leaf-list an array of scalars
+func jsonLeafShape(m meta.Leafable, data interface{}) error {
+	switch m.Type().Format().Single() {
+	case val.FmtAny, val.FmtEmpty:
+		// anything goes, an empty leaf is there or not
+		return nil
+	}
+	switch x := data.(type) {
+	case map[string]interface{}:
+		return fmt.Errorf("%w. %s is a leaf, found an object", fc.BadRequestError, m.Ident())
+	case []interface{}:
+		for _, item := range x {
+			switch item.(type) {
+			case map[string]interface{}, []interface{}:
+				return fmt.Errorf("%w. %s is a leaf, found an object or array in its values", fc.BadRequestError, m.Ident())
+			}
+		}
+	}
+	return nil
+}
+
+func jsonObject(m meta.Definition, data interface{}) (map[string]interface{}, error) {
+	if obj, ok := data.(map[string]interface{}); ok {
+		return obj, nil
+	}
+	return nil, fmt.Errorf("%w. %s expects an object", fc.BadRequestError, m.Ident())
 }
 
 func JsonListReader(list []interface{}) node.Node {
@@ -71,7 +103,10 @@ func JsonListReader(list []interface{}) node.Node {
 			if r.First {
 				keyFields := r.Meta.KeyMeta()
 				for i := 0; i < len(list); i++ {
-					candidate := list[i].(map[string]interface{})
+					candidate, err := jsonObject(r.Meta, list[i])
+					if err != nil {
+						return nil, nil, err
+					}
 					if jsonKeyMatches(keyFields, candidate, key) {
 						return JsonContainerReader(candidate), r.Key, nil
 					}
@@ -79,12 +114,19 @@ func JsonListReader(list []interface{}) node.Node {
 			}
 		} else {
 			if r.Row < len(list) {
-				container := list[r.Row].(map[string]interface{})
+				container, err := jsonObject(r.Meta, list[r.Row])
+				if err != nil {
+					return nil, nil, err
+				}
 				if len(r.Meta.KeyMeta()) > 0 {
 					keyData := make([]interface{}, len(r.Meta.KeyMeta()))
 					for i, kmeta := range r.Meta.KeyMeta() {
-						// Key may legitimately not exist when inserting new data
-						keyData[i] = fqkGetOrNil(kmeta, container)
+						if keyData[i] = fqkGetOrNil(kmeta, container); keyData[i] == nil {
+							return nil, nil, fmt.Errorf("%w. item %d of list %s has no key %s", fc.BadRequestError, r.Row, r.Meta.Ident(), kmeta.Ident())
+						}
+						if err = jsonLeafShape(kmeta, keyData[i]); err != nil {
+							return nil, nil, err
+						}
 					}
 					if key, err = node.NewValues(r.Meta.KeyMeta(), keyData...); err != nil {
 						return nil, nil, err
@@ -138,10 +180,22 @@ func JsonContainerReader(container map[string]interface{}) node.Node {
 			panic("cannot write to JSON reader")
 		}
 		if value, found := fqkGet(r.Meta, container); found {
-			if meta.IsList(r.Meta) {
-				return JsonListReader(value.([]interface{})), nil
+			if value == nil {
+				// null
+				return nil, nil
 			}
-			return JsonContainerReader(value.(map[string]interface{})), nil
+			if meta.IsList(r.Meta) {
+				list, ok := value.([]interface{})
+				if !ok {
+					return nil, fmt.Errorf("%w. %s expects an array", fc.BadRequestError, r.Meta.Ident())
+				}
+				return JsonListReader(list), nil
+			}
+			obj, err := jsonObject(r.Meta, value)
+			if err != nil {
+				return nil, err
+			}
+			return JsonContainerReader(obj), nil
 		}
 		return
 	}
